@@ -2,6 +2,8 @@ package eval
 
 import (
 	"fmt"
+	"maps"
+	"slices"
 	"strings"
 
 	"github.com/simimpact/srsim/pkg/logic/gcs/ast"
@@ -192,7 +194,9 @@ func (e *Eval) evalMap(m *ast.MapExpr, env *Env) (Obj, error) {
 		}
 		r.array = append(r.array, obj)
 	}
-	for k, v := range m.Fields {
+	// field expressions can have effects (rand, print): evaluate them in the order of the field names
+	for _, k := range slices.Sorted(maps.Keys(m.Fields)) {
+		v := m.Fields[k]
 		obj, err := e.evalExpr(v, env)
 		if err != nil {
 			return nil, err
